@@ -1,12 +1,21 @@
 """C19 — seed-compressed objects expand to exactly what full encryption would produce."""
 PROPS_VO = "Props/C19.vo"
 PROFILES = ["release"]
-RULE = ("harness c19: compressed GLWE / GGSW / GGLWE / switching / automorphism / tensor / GGLWE->GGSW keys on four backends: "
+RULE = ("harness c19: compressed GLWE / GGSW / GGLWE / switching / automorphism / tensor / GGLWE->GGSW keys, entries of a compressed CGGI "
+        "blind-rotation key, the LWE-related wrapper layouts (same bytes, same cells) and LWECompressed -> decompress_lwe on four backends: "
         "compressed encryption, decompression, per cell the standard glwe_encrypt_sk with Source::new(stored seed) and the shared "
         "sequential error stream, serialise -> deserialise -> decompress; outputs are the stored seeds, every decompressed word and "
         "the byte-comparison flags; the model reproduces seeds and words from (plaintext, secret, raw u64 streams, replayed errors)")
 ASSUMPTIONS = ["release-mode (wrapping) integer semantics", "DFT-domain products exact inside the backend's magnitude domain (C07)"]
 TRUSTED = ["ChaCha8 (stream_of seed) and rand_distr::Normal are inputs of the model"]
 def classify(record):
-    """no open class: `gglwe_to_ggsw_key_compressed.seeds_not_stored` was repaired by 3f87a93"""
+    """open class: decompress_lwe (19004) for an LWE dimension other than 1 (ps[1] != 1) panics on its layout assertion.
+    (`gglwe_to_ggsw_key_compressed.seeds_not_stored` was repaired by 3f87a93.)"""
+    try:
+        code, ps = record.split("#")[:2]
+        p = [int(x, 16) for x in ps.split()]
+        if int(code) == 19004 and p[1] != 1:
+            return "lwe_compressed.decompress_lwe_layout_assert"
+    except Exception:
+        pass
     return None
